@@ -25,5 +25,5 @@ with tempfile.TemporaryDirectory() as d:
         report[pid] = {"seeds_compared": len(keys), "mismatches": len(diff)}
         print(pid, report[pid], flush=True)
         bad += len(diff)
-json.dump(report, open(os.path.join(HERE, "reports", "determinism.json"), "w"), indent=1)
+json.dump(report, open(os.path.join(HERE, os.environ.get("DETERMINISM_OUT", os.path.join("reports", "determinism.json"))), "w"), indent=1)
 sys.exit(1 if bad else 0)
